@@ -164,80 +164,38 @@ def r4(fx):
                      want=f'{"".join(map(str, bad[2]))}' if bad else 'ISO 7.4.10 fill')
 
 
-class _Stop(Unknown):
-    pass
-
-
 @rule('C13', 'R6', 8, '_encode: terminator, padding bits, pad codewords in this order on the one bit buffer, each with its current length, capacity of the final (boosted) level')
 def r6(fx):
-    """_encode is interpreted up to the construction of the final message with recording stand-ins for the segment writer, the
-    level booster and the three pad helpers (each stand-in appends some bits so that a stale length would show)."""
-    from .models import SegModel, SegmentsModel, encoder_env
-    from ..interp import FuncVal
+    """_encode is interpreted with recording stand-ins for all its stages (models.trace_encode)."""
+    from .models import trace_encode
     fn = fx.fn('encoder', '_encode')
-    lv, mv, md = levels(fx), micro_versions(fx), modes(fx)
+    lv, mv = levels(fx), micro_versions(fx)
     cap = C(fx, 'SYMBOL_CAPACITY')
     for v, level, boosted in ((5, 'L', 'Q'), (-2, 'L', 'M'), (-3, None, None), (1, 'M', 'M')):
         rv = mv[v] if v < 1 else v
-        rec = []
-        bufs = []
-
-        class B(Buf):
-            _model = ('extend', 'append_bits', 'getbits', 'toints')
-
-            def __init__(self):
-                Buf.__init__(self, 0)
-                bufs.append(self)
-
-            def append_bits(self, val, n):
-                self.bits.extend([7] * n)
-
-        def write_segment(buff, segment, ver, ver_range, eci=False):
-            buff.bits.extend([7] * 37)
-
-        def helper(name, grow):
-            def f(buff, *a):
-                rec.append((name, buff, a, len(buff)))
-                buff.bits.extend([0] * grow)
-            return f
-
-        def boost(version, error, segments, eci, is_sa=False):
-            rec.append(('boost', None, (version, error), None))
-            return None if boosted is None else lv[boosted]
-
-        def final(version, error, buff):
-            rec.append(('final', buff, (version, error), len(buff)))
-            raise _Stop()
-        it = Interp(max_steps=200_000)
-        genv = encoder_env(fx.forest, it, Buffer=B, write_segment=write_segment, write_terminator=helper('write_terminator', 3),
-                           write_padding_bits=helper('write_padding_bits', 5), write_pad_codewords=helper('write_pad_codewords', 16),
-                           boost_error_level=boost, make_final_message=final)
-        segs = SegmentsModel([SegModel(md['byte'], 'iso-8859-1')])
-        try:
-            FuncVal(fn, genv, it)(segs, None if level is None else lv[level], rv, None, False, True)
-            raise Unknown('_encode finished without constructing the final message')
-        except _Stop:
-            pass
-        names = [r[0] for r in rec]
+        rec, res, info = trace_encode(fx, rv, level, boosted)
+        names = [r[0] for r in rec if r[0] in ('boost_error_level', 'write_terminator', 'write_padding_bits', 'write_pad_codewords', 'make_final_message')]
+        by = {r[0]: r for r in rec}
         tag = f'v{v} level {level} boosted to {boosted}'
-        want_order = ['boost', 'write_terminator', 'write_padding_bits', 'write_pad_codewords', 'final']
+        want_order = ['boost_error_level', 'write_terminator', 'write_padding_bits', 'write_pad_codewords', 'make_final_message']
         probs = []
         if names != want_order:
             probs.append(f'call order {names}')
         else:
-            t, pb, pc, fin = rec[1], rec[2], rec[3], rec[4]
-            if not (t[1] is pb[1] is pc[1] is fin[1]) or len(bufs) != 1:
+            t, pb, pc, fin = by['write_terminator'], by['write_padding_bits'], by['write_pad_codewords'], by['make_final_message']
+            buf = info['buffers'][0] if len(info['buffers']) == 1 else None
+            if buf is None or not (t[1][0] is buf and pb[1][0] is buf and pc[1][0] is buf and fin[1][2] is buf):
                 probs.append('the helpers do not all work on the one bit buffer that becomes the final message')
             want_cap = cap[rv][None if boosted is None else lv[boosted]]
             ver_t = None if v >= 1 else rv
-            if t[2] != (want_cap, ver_t, t[3]):
-                probs.append(f'write_terminator(capacity, ver, length) = {t[2]}, expected ({want_cap}, {ver_t}, {t[3]})')
-            if pb[2] != (rv, pb[3]):
-                probs.append(f'write_padding_bits(version, length) = {pb[2]}, expected ({rv}, {pb[3]})')
-            if pc[2] != (rv, want_cap, pc[3]):
-                probs.append(f'write_pad_codewords(version, capacity, length) = {pc[2]}, expected ({rv}, {want_cap}, {pc[3]})')
-            if fin[2] != (rv, None if boosted is None else lv[boosted]):
-                probs.append(f'final message built for (version, level) = {fin[2]}')
+            if tuple(t[1][1:]) != (want_cap, ver_t, t[3]):
+                probs.append(f'write_terminator(capacity, ver, length) = {t[1][1:]}, expected ({want_cap}, {ver_t}, {t[3]})')
+            if tuple(pb[1][1:]) != (rv, pb[3]):
+                probs.append(f'write_padding_bits(version, length) = {pb[1][1:]}, expected ({rv}, {pb[3]})')
+            if tuple(pc[1][1:]) != (rv, want_cap, pc[3]):
+                probs.append(f'write_pad_codewords(version, capacity, length) = {pc[1][1:]}, expected ({rv}, {want_cap}, {pc[3]})')
+            if tuple(fin[1][:2]) != (rv, None if boosted is None else lv[boosted]):
+                probs.append(f'final message built for (version, level) = {fin[1][:2]}')
         yield ob(f'{tag}: order, buffer, current lengths', not [p_ for p_ in probs if 'capacity' not in p_ and 'final message built' not in p_], fn,
                  got='; '.join(probs) or 'as required', want='as required')
         yield ob(f'{tag}: capacity = SYMBOL_CAPACITY[version][level after boosting] for terminator and pad codewords', not [p_ for p_ in probs if 'capacity' in p_ or 'final message built' in p_],
